@@ -126,6 +126,7 @@ func has(evs []int, e int) bool { return eventsHave(evs, e) }
 // C11: SMP reports success exactly when the secrets match within one session
 func genC11(c *Ctx) {
 	c.Rep.Rule = "SMP runs inside real sessions: secret shapes (empty, short, long, binary, one byte different), with/without question, either initiator, repeated and back-to-back runs with traffic and rotations in between, v2/v3; a relay between two separately keyed sessions forwarding the SMP payloads; every step compared with the symbolic SMP model (exponent representation); oracle: Success on both sides iff the secrets are byte-equal, never Success through the relay"
+	smpRestarts(c)
 	n := 12
 	if c.Thorough() {
 		n = 120
@@ -359,6 +360,7 @@ func groupRangeCases(c *Ctx) {
 
 func genC12(c *Ctx) {
 	c.Rep.Rule = "for SMP messages 1, 1Q, 2, 3, 4: every MPI field replaced by a boundary value (0, 1, p-1, p, p+1, q, random, +1) or MPIs dropped, sent through the authentic session; out-of-sequence and duplicated messages; user calls (start, answer, abort) in every SMP state; v2 and v3; each step compared with the symbolic SMP model; oracle: no Success on the receiver of a deviant message, no panic, and a fresh honest run with equal secrets succeeds afterwards"
+	smpRestarts(c)
 	n := 8
 	if c.Thorough() {
 		n = 200
